@@ -138,21 +138,21 @@ static void print_marks(AMdoc *d, const AMobjId *t, const AMitems *heads) {
   release(mk);
 }
 
-static void cmd_text(int r) {
+static void cmd_text(int r, const long long *q) {
   AMdoc *d = docs[r];
   AMresult *hb = AMgetHeads(d); AMitems hbi = AMresultItems(hb);
   AMresult *to = AMmapPutObject(d, AM_ROOT, AMstr("t"), AM_OBJ_TYPE_TEXT);
   const AMobjId *t = AMitemObjId(AMresultItem(to));
   printf("T %s", st(AMspliceText(d, t, 0, 0, AMstr("hello w\xc3\xb6rld"))));
-  printf(" %s", st(AMspliceText(d, t, 2, 3, AMstr("XY"))));
+  printf(" %s", st(AMspliceText(d, t, (size_t)q[0], (ptrdiff_t)q[1], AMstr("XY"))));
   commit(r);
   AMresult *hm = AMgetHeads(d); AMitems hmi = AMresultItems(hm);
   printf(" %s", st(AMspliceText(d, t, SIZE_MAX, 0, AMstr("!"))));
   printf(" %s", st(AMspliceText(d, t, 500, 0, AMstr("?"))));
   AMresult *bv = AMitemFromBool(true), *iv = AMitemFromInt(7);
-  printf(" %s", st(AMmarkCreate(d, t, 1, 6, AM_MARK_EXPAND_BOTH, AMstr("bold"), AMresultItem(bv))));
-  printf(" %s", st(AMmarkCreate(d, t, 3, 8, AM_MARK_EXPAND_NONE, AMstr("size"), AMresultItem(iv))));
-  printf(" %s", st(AMmarkClear(d, t, 2, 4, AM_MARK_EXPAND_BOTH, AMstr("bold"))));
+  printf(" %s", st(AMmarkCreate(d, t, (size_t)q[2], (size_t)q[3], AM_MARK_EXPAND_BOTH, AMstr("bold"), AMresultItem(bv))));
+  printf(" %s", st(AMmarkCreate(d, t, (size_t)q[4], (size_t)q[5], (AMmarkExpand)(1 + q[8] % 4), AMstr("size"), AMresultItem(iv))));
+  printf(" %s", st(AMmarkClear(d, t, (size_t)q[6], (size_t)q[7], AM_MARK_EXPAND_BOTH, AMstr("bold"))));
   printf(" %s", st(AMmarkCreate(d, t, 4, 2, AM_MARK_EXPAND_NONE, AMstr("rev"), AMresultItem(iv))));
   release(bv); release(iv);
   commit(r);
@@ -168,7 +168,7 @@ static void cmd_text(int r) {
   printf(" lenthen=%zu lenbefore=%zu marksthen=", AMobjSize(d, t, &hmi), AMobjSize(d, t, &hbi));
   print_marks(d, t, &hmi);
   /* cursors */
-  AMresult *cu = AMgetCursor(d, t, 3, NULL); const AMcursor *c = NULL;
+  AMresult *cu = AMgetCursor(d, t, (size_t)q[9], NULL); const AMcursor *c = NULL;
   if (AMresultStatus(cu) == AM_STATUS_OK && AMitemToCursor(AMresultItem(cu), &c)) {
     AMbyteSpan cs = AMcursorStr(c);
     printf(" cur=%.*s", (int)cs.count, (const char *)cs.src);
@@ -488,7 +488,11 @@ int main(void) {
     if (!strcmp(cmd, "merge")) { sscanf(line, "%*s %d %d", &r, &s); AMresult *m = AMmerge(docs[r], docs[s]); check(m, "merge"); release(m); continue; }
     if (!strcmp(cmd, "obs")) { sscanf(line, "%*s %d", &r); obs(r); continue; }
     if (!strcmp(cmd, "scal")) { sscanf(line, "%*s %d", &r); cmd_scal(r); continue; }
-    if (!strcmp(cmd, "text")) { sscanf(line, "%*s %d", &r); cmd_text(r); continue; }
+    if (!strcmp(cmd, "text")) {
+      long long q[10] = {2, 3, 1, 6, 3, 8, 2, 4, 0, 3};
+      sscanf(line, "%*s %d %lld %lld %lld %lld %lld %lld %lld %lld %lld %lld", &r, &q[0], &q[1], &q[2], &q[3], &q[4], &q[5], &q[6], &q[7], &q[8], &q[9]);
+      cmd_text(r, q); continue;
+    }
     if (!strcmp(cmd, "chg")) { sscanf(line, "%*s %d", &r); cmd_chg(r); continue; }
     if (!strcmp(cmd, "apply")) { sscanf(line, "%*s %d", &r); cmd_apply(r); continue; }
     if (!strcmp(cmd, "fork")) { sscanf(line, "%*s %d", &r); cmd_fork(r); continue; }
